@@ -127,7 +127,9 @@ def run(ctx):
             pws += ['12love12', '34love34', '12love34', 'love12', 'love34', '!pass!', '#pass!', 'pass#', '7monkey7', '7monkey8',
                     '2019hello2019', 'hello2019', '1qaz2wsx1qaz', '<3love<3', 'love<3',
                     # context-sensitive strings of different lengths that share one probability group ('No.' is a prefix of 'No.1')
-                    'xy??No.1', 'word No.', 'dr.house']
+                    'xy??No.1', 'word No.', 'dr.house',
+                    # a letter without an upper-case form of its own (its upper() is two letters) inside words with upper-case letters after it
+                    'STRAßE1', 'Straße1', 'GROßE!', 'Fußball7', 'FUßBALL']
             # the scorer's own multi-word detector at work (it needs six probability tiers in a length class): a three-word
             # compound and, after it, strings made of its two-word tail
             pws += gen_passwords.scorer_family()
